@@ -15,6 +15,7 @@
 import SqlglotModel.Proofs.Cursor
 import SqlglotModel.Proofs.ScanProgress
 import SqlglotModel.Proofs.FindParser
+import SqlglotModel.Proofs.FormatScan
 import SqlglotModel.Generated.C05
 
 namespace SqlglotModel.Properties.C05
@@ -415,6 +416,47 @@ theorem find_parser_key_functions_known :
   decide +kernel
 
 end Find
+
+/-! ## scanners over format-string literals inside function builders -/
+
+namespace Fmt
+open SqlglotModel.FormatScan
+
+/-- the guarded `%`-walk (`_has_time_specifier` as the source has it: `if i < length and s[i] in TIME_SPECIFIERS`) never
+    indexes out of range and terminates within `len(s) + 1` iterations — for every string (empty, a single `%`, a trailing
+    `%`, `%%`, …) and every specifier set -/
+theorem format_walk_guarded_safe (spec : Char → Bool) (s : List Char) :
+    hasTimeSpecifier spec s = .found ∨ hasTimeSpecifier spec s = .notFound :=
+  walkGuarded_safe spec s (s.length + 1) 0 (by omega)
+
+example : hasTimeSpecifier (fun c => c = 'H') "%Y-%m-%".toList = .notFound := by decide +kernel
+example : hasTimeSpecifier (fun c => c = 'H') "%Y %H".toList = .found := by decide +kernel
+
+/-- the guard is needed: the find-based variant that looks at `s[i + 1]` without a bounds test raises IndexError on a
+    format ending in an unpaired `%` (no time specifier earlier), and on a single `%` -/
+theorem format_walk_find_index_error :
+    hasTimeSpecifierFind (fun c => c = 'H') "%Y-%m-%".toList = .indexError ∧
+    hasTimeSpecifierFind (fun c => c = 'H') "%d days, 100%".toList = .indexError ∧
+    hasTimeSpecifierFind (fun c => c = 'H') "%".toList = .indexError ∧
+    hasTimeSpecifierFind (fun c => c = 'H') "%Y %H".toList = .found := by decide +kernel
+
+/-- every index-arithmetic lookup into a string / argument list inside the function builders and their helpers
+    (parsers/*.py, dialects/dialect.py, parser.py, time.py, helper.py; ast on this run) with the bounds guard that dominates
+    it — an allow-list decided completely, so a new or differently guarded lookup breaks the build.  Audited entries:
+    `parser._advance tokens[index - 1]` sits behind `if index > 0` (not a length test); `parser.build_var_map args[i + 1]`
+    is guarded only by `range(0, len(args), 2)`, which is NOT enough for an odd number of arguments — the recorded
+    clean-tree finding `MAP(1` (IndexError in build_var_map). -/
+theorem builder_string_lookaheads_guarded :
+    SqlglotModel.Generated.C05.stringIndexSites =
+      [("hive._build_named_struct", "args[i + 1]", "for i in range(0, len(args) - 1, 2)"),
+       ("mysql._has_time_specifier", "date_format[i]", "i < length"),
+       ("parser._advance", "tokens[index + 1]", "index + 1 < size"),
+       ("parser._advance", "tokens[index - 1]", ""),
+       ("parser.build_var_map", "args[i + 1]", "for i in range(0, len(args), 2)"),
+       ("snowflake._build_round", "positional_keys[positional_idx]", "positional_idx < len(positional_keys)")] := by
+  decide +kernel
+
+end Fmt
 
 /-! ## tokenizer: `_scan` makes progress although sub-scanners rewind -/
 
